@@ -608,6 +608,35 @@ func enumerate(bases []baseCase, emit emitFn) {
 						return f
 					}, m.class, fmt.Sprintf("%s:%d %s", name, li+1, m.descr), emit)
 				}
+				// a line of white space only behind this line (and in front of the first line); trailing white space
+				{
+					li, name, line := li, name, line
+					wsv := []string{" ", "   ", "\t", " \t ", "\r", "  \r"}
+					w := wsv[int(hash64(line)%uint64(len(wsv)))]
+					drcCases(b, func() map[string]string {
+						var nl []string
+						nl = append(nl, lines[:li+1]...)
+						nl = append(nl, w)
+						nl = append(nl, lines[li+1:]...)
+						f := cloneFiles(b.files)
+						f[name] = strings.Join(nl, "\n")
+						return f
+					}, "blankline", fmt.Sprintf("%s:%d white-space line %q behind", name, li+1, w), emit)
+					if li == 0 {
+						drcCases(b, func() map[string]string {
+							f := cloneFiles(b.files)
+							f[name] = w + "\n" + strings.Join(lines, "\n")
+							return f
+						}, "blankline", fmt.Sprintf("%s white-space line %q in front", name, w), emit)
+					}
+					drcCases(b, func() map[string]string {
+						nl := append([]string{}, lines...)
+						nl[li] = line + w
+						f := cloneFiles(b.files)
+						f[name] = strings.Join(nl, "\n")
+						return f
+					}, "blankline", fmt.Sprintf("%s:%d trailing white space %q", name, li+1, w), emit)
+				}
 				// file truncated after this line (prefix of the file)
 				if li+1 < len(lines) && strings.TrimSpace(strings.Join(lines[li+1:], "")) != "" {
 					li, name := li, name
